@@ -196,6 +196,15 @@ type FuncSpec struct {
 	PtrSynonyms bool
 	FieldRename map[string]string
 	MapCap      bool // `make(map[K]V, n)`: the empty map (the size hint carries no meaning)
+	// ---- (C02, round 3) verifier objects that are derived from one another and reused; both default-off
+	// AlsoRetType: with AlsoRet on a function of ANY result kind, the Lean twin's result type becomes `(<result> × AlsoRetType)`:
+	// the second half is the final value of the pointer parameter AlsoRet on the path taken, so a write through that pointer
+	// (`v.keySet = …` in a verifier function) is part of the definition instead of a shadowed local.
+	AlsoRetType string
+	// OptionClosures (with Closures): a function literal with ONE pointer parameter `p *T` and no result (`func(v *T) { v.F = e }`,
+	// the functional-option idiom) becomes `(fun p => ..; p)`, the final value of what it points to; with the single result `error`
+	// (`func(o *Provider) error { o.F = e; return nil }`) it becomes `(fun p => ..; (.ok p))`.  Field updates inside are plain.
+	OptionClosures bool
 }
 
 // StructLit: `&pkg.T{K: V, ...}` becomes `({ K := V, ... } : Lean)`, restricted to the fields in Keep.
@@ -2461,6 +2470,9 @@ func translateFunc(fset *token.FileSet, fd *ast.FuncDecl, spec *FuncSpec) (strin
 	}
 	if spec.RecvOut != "" {
 		rt = "(" + spec.RecvOutType + " × " + rt + ")"
+	}
+	if spec.AlsoRet != "" && spec.AlsoRetType != "" {
+		rt = "(" + rt + " × " + spec.AlsoRetType + ")"
 	}
 	t := &tr{spec: spec, fset: fset, indent: 1, fresh: map[string]bool{}, declared: map[string]bool{}, rt: "(" + rt + ")",
 		varTypes: map[string]string{}, aliases: map[string][2]string{}}
